@@ -341,6 +341,12 @@ class BP(EvalObj):
     def __bool__(self):
         return self.value != 0
 
+    def to_coefficient_list(self):
+        # coefficient of X^j at position j (lowest degree first), as the repository's class returns it
+        from .constfold import PySeq
+
+        return PySeq([(self.value >> j) & 1 for j in range(max(self.value.bit_length(), 1))])
+
     def __repr__(self):
         return f"BP({self.value:#b})"
 
